@@ -182,6 +182,10 @@ impl Scenario for C14 {
             ctx.hit("reach.violator_with_parallel_workers");
         }
         let unchanged = obs.post == pre;
+        if matches!(obs.result, TickResult::ValidatorDisagreement(_)) {
+            ctx.hit("reach.incrate_validator_disagreement");
+            return Outcome::Ok;
+        }
         match (&expected, &obs.result) {
             // --- must be flagged ---
             (Expected::Kind(k), TickResult::Violation { kind, .. }) => {
@@ -261,6 +265,7 @@ impl Scenario for C14 {
                 }
                 Outcome::Ok
             }
+            (_, TickResult::ValidatorDisagreement(_)) => Outcome::Ok,
             (Expected::NothingWrong, _) => {
                 if self.also_panic {
                     return Outcome::violation("executor_panic_swallowed", format!("program panics but commit returned {}", short(&obs.result)));
